@@ -15,6 +15,11 @@ for f in kf:
         c = f.get("commit", "")
         if c not in fixsubj or " fix:" not in fixsubj[c]:
             print("WARNING: fixed finding %s names commit %r which is not a fix: commit of /repo" % (f["key"], c))
+for f in kf:
+    # the one-line form the interface names: "fixed: property=<id> <commit> <what failed>" / the KNOWN-FINDING line the check prints
+    what = " ".join(f["what"].split())
+    f["line"] = ("fixed: property=%s %s %s [%s]" % (f["property"], f.get("commit", ""), what, f["key"]) if f["status"] == "fixed"
+                 else "KNOWN-FINDING: property=%s %s [%s]" % (f["property"], what, f["key"]))
 json.dump({"comment": "known: genuine defect recorded, its trigger class is excluded from generation and the probe prints KNOWN-FINDING; fixed: repaired by the named fix: commit in /repo, suppresses nothing (the probe is an ordinary assertion)", "findings": kf}, open(os.path.join(V, "known_findings.json"), "w"), indent=1)
 ready = set(open(os.path.join(V, "tools", "ready.txt")).read().split())
 conf = {k: v for k, v in conf.items() if k in ready}
